@@ -10,6 +10,7 @@ fallback, in every finite model with type variables of size <= 3; counter-models
 evaluator.  An independent 30-line type checker decides "well-typed".
 """
 import itertools
+import time
 import os
 import random
 
@@ -34,7 +35,7 @@ RULE = ('one evaluation = one proof script step sequence submitted to the checke
         'that reached the SMT oracle; trivial = rejected scripts and sequents already seen')
 EXPLANATION = ('each accepted sequent is translated to SMT: type variables -> uninterpreted sorts, functions -> arrays, free/schematic variables -> constants; '
                'unsat of hyps & ~concl means valid in every model; sat is confirmed by brute-force evaluation in the finite model')
-BUDGET_S = {'quick': 100, 'thorough': 1700}
+BUDGET_S = {'quick': 240, 'thorough': 1700}
 
 
 _P = {}
@@ -42,7 +43,8 @@ _P = {}
 
 def bounds(tier):
     p = pool(tier)
-    return {'max_steps': p['L'], 'terms': len(p['terms']), 'insts': len(p['insts']), 'tyinsts': len(p['tyinsts']),
+    return {'max_steps': p['L'], 'exploration': 'exhaustive DFS' if tier == 'quick' else 'DFS to depth 4 in time slices of %.0f s per (first step, rule of the second step): not exhaustive' % SLICE_S,
+            'terms': len(p['terms']), 'insts': len(p['insts']), 'tyinsts': len(p['tyinsts']),
             'rules': sorted(NPREV), 'sample_terms': [sstr(t) for t in p['terms'][:60]]}
 
 
@@ -158,7 +160,12 @@ def first_steps(p):
 def units(tier, seed):
     p = pool(tier)
     fs = first_steps(p)
-    us = [('dfs', tier, i) for i in range(len(fs))]
+    if tier == 'quick':
+        us = [('dfs', tier, i) for i in range(len(fs))]
+    else:
+        # depth 4 is too large to exhaust from any first step: one unit per (first step, rule of the second step), each with its
+        # own time slice; a unit that runs out of time reports what it explored (the run is then not exhaustive, and says so)
+        us = [('dfs', tier, i, r) for i in range(len(fs)) for r in range(len(NPREV))]
     random.Random(seed).shuffle(us)
     return us
 
@@ -195,6 +202,7 @@ def thm_key(th):
 
 ORACLE = None
 TRIVIAL = [0]
+SLICE_S = 12.0      # thorough tier: time slice of one (first step, second rule) unit
 
 
 def judge(th):
@@ -229,7 +237,9 @@ def run_unit(u):
     from kernel import theory
     from kernel.proof import Proof, ProofItem
     from kernel.theory import CheckProofException
-    _, tier, idx = u
+    tier, idx = u[1], u[2]
+    second = u[3] if len(u) > 3 else None
+    deadline = time.monotonic() + SLICE_S if second is not None else None
     p = pool(tier)
     L = p['L']
     twin = bool(os.environ.get('VERIF_TWIN'))
@@ -295,8 +305,14 @@ def run_unit(u):
         visited.add((depth, state))
         if depth == L:
             return
+        if deadline is not None and time.monotonic() > deadline:
+            out['stats']['time_slice_exhausted'] = 1
+            out['stats']['budget_cut'] = 1
+            return
         n = len(prf.items)
-        for rule in rules:
+        for ri, rule in enumerate(rules):
+            if depth == 1 and second is not None and ri != second:
+                continue
             k = NPREV[rule]
             if k > n:
                 continue
